@@ -660,6 +660,12 @@ def r_stateless(rep: Report, repo: Repo, methods=None, afile="hdc/algo/accessors
                 for t in m.targets:
                     if isinstance(t, ast.Name):
                         stored.setdefault(t.id, m)      # class-level mutable container
+            if isinstance(m, ast.FunctionDef):
+                # memoising decorators store the first result on the instance / in a module-level table keyed by the instance
+                for d in m.decorator_list:
+                    dn = ast.unparse(d.func if isinstance(d, ast.Call) else d).split(".")[-1]
+                    if dn in ("cached_property", "lru_cache", "cache", "memoize", "cachedmethod"):
+                        stored.setdefault(m.name, m)
     all_methods = {(c.name, m.name): m for c in classes.values() for m in c.body if isinstance(m, ast.FunctionDef)}
     by_name: Dict[str, List[ast.FunctionDef]] = {}
     for (cn, mn), m in all_methods.items():
@@ -686,7 +692,7 @@ def r_stateless(rep: Report, repo: Repo, methods=None, afile="hdc/algo/accessors
             fnm, n = reads[0]
             st = stored[n.attr]
             rep.ob("R-STATELESS", afile, where, "the method reads the wrapped object at call time, never a value stored on the accessor", False,
-                   f"`self.{n.attr}` (read in {fnm}, line {n.lineno}) is a snapshot taken by `{norm_stmt(st)[:90]}` (line {st.lineno}): xarray caches the accessor per object, "
+                   f"`self.{n.attr}` (read in {fnm}, line {n.lineno}) is a snapshot taken by `{(norm_stmt(st) if not isinstance(st, ast.FunctionDef) else '@' + ast.unparse(st.decorator_list[0]) + ' def ' + st.name)[:90]}` (line {st.lineno}): xarray caches the accessor per object, "
                    f"so an in-place change of attrs / coordinates made after the first access is not seen", n, line=n.lineno)
         else:
             rep.ob("R-STATELESS", afile, where, "the method reads the wrapped object at call time, never a value stored on the accessor", True,
